@@ -304,7 +304,16 @@ impl Display for Expr {
         }
 
         if let Some(ref val) = self.val {
-            fmt.write_str(val)?;
+            // a literal is written so that the cache key cannot take it for anything else: text in
+            // quotes (`'Name'` is not the column Name, `'a, b'` is not two arguments), numbers and
+            // the `*` of COUNT(*) bare
+            if val == "*" || (!val.is_empty() && val.chars().all(|c| c.is_ascii_digit() || c == '.')) {
+                fmt.write_str(val)?;
+            } else {
+                fmt.write_char('\'')?;
+                fmt.write_str(&val.replace('\'', "''"))?;
+                fmt.write_char('\'')?;
+            }
         }
 
         if let Some(ref arithmetic_op) = self.arithmetic_op {
